@@ -20,7 +20,7 @@ fn main() {
 	c.set_case_timeout_secs(600);
 	c.assume("Crash consistency is decided at KVStore-operation granularity (a crash happens between two store operations; a store operation is atomic); power-loss/fsync ordering of the real filesystem is not observable in-process.");
 	c.assume("Thread interleavings of the filesystem stores are whatever the OS scheduler produces (2-8 threads, shared keys); the concurrent oracle only flags histories impossible under every interleaving, so the 'all thread interleavings' clause is explored, not enumerated.");
-	c.assume("Lazy removals issued before a crash: none applied / all applied / two pseudo-random subsets per crash prefix (not all 2^n subsets). Failing store operations: every operation position of a history up to a cap (96 quick / 400 thorough, evenly strided above it); a failed operation has no effect on the store.");
+	c.assume("Lazy removals issued before a crash: none applied / all applied / two pseudo-random subsets per crash prefix (not all 2^n subsets). Failing store operations: every operation position (write, remove, read, list) of every history fails once, resuming the fault-free run at the start of the call that contains it and running that call plus the next two; a failed operation has no effect on the store; after a persist call reports failure the node stops.");
 	c.assume("Chain data and released monitor events change the in-memory monitor outside of ChannelMonitorUpdates; the recovered monitor is therefore compared with (in-memory monitor handed over in the persist call whose full write survives) + (recorded updates up to the recovered id), and additionally with the in-memory monitor of the last update directly whenever the in-memory steps in between were pure update applications.");
 	c.assume("ChannelMonitor equality is the library's `==` (test-only PartialEq) on monitors decoded through one TestKeysInterface; byte equality is used only between a monitor object and what the persister stored for that same object (HashMap iteration order makes re-encodings of equal monitors differ).");
 	c.assume("Names: only valid KVStore names (alphabet, <=120 chars, empty primary implies empty secondary); for the v1 store a key never equals a sub-namespace name of its own namespace (documented caller obligation). Scratch directories live under /verif/.scratch/c19 on the local filesystem.");
@@ -31,8 +31,8 @@ fn main() {
 			name: "fs-store-atomic-map",
 			rule: "store kind (v1/v2 x sync/async) x 1-3 namespace pairs x 1-3 key names from pools with empty namespaces, 120-char names and keys named like namespaces; 4-27 sequential ops (write 0B..256kB / read / remove lazy|eager / list / list_all_keys / reopen / bursts of same-key ops whose async futures complete out of order), optional 2-8 thread phase over the same keys, tail ops. Non-trivial: one key is written, removed and re-written, or >=2 threads mutate one key.",
 			quick_cases: 1500,
-			thorough_cases: 40_000,
-			max_shrink: 300,
+			thorough_cases: 60_000,
+			max_shrink: 200,
 		},
 		a::strat(),
 		a::oracle,
@@ -42,9 +42,9 @@ fn main() {
 		PartSpec {
 			name: "monitor-persister-crash",
 			rule: "2-node channel history (payments both ways incl. dust, held HTLCs claimed/failed, fee updates, blocks, cleanup_stale_updates(lazy|eager), optional cooperative / force close by either side with pending HTLCs, post-close preimage claims, on-chain claim rounds, optional archive) persisted by both nodes through MonitorUpdatingPersister(maximum_pending_updates in {0,1,2,3,5,10,100}); live log + replays of the recorded call script with other settings: every crash prefix x lazy-removal outcomes recovered; then every store-operation position fails once. Non-trivial: some crash prefix ends right after an update write and some prefix ends inside a clean-up with a lazy removal undecided.",
-			quick_cases: 64,
-			thorough_cases: 2000,
-			max_shrink: 60,
+			quick_cases: 48,
+			thorough_cases: 2400,
+			max_shrink: 24,
 		},
 		b::strat(),
 		move |case, ctx| b::oracle(case, ctx, thorough),
